@@ -5,7 +5,6 @@
 From Coq Require Import List NArith Bool String.
 From Verif Require Import Lib.Bytes Sni.Wire Sni.Route Sni.RouteProofs Sni.Mailbox
   Sni.MailboxProofs Sni.MailboxConc Sni.RouteGen Gen.RouteConsts Gen.WireSchema Sni.WireGen.
-From Verif Require Import Lib.GoLib Gen.CodeSni Sni.CodeCands Sni.CodeRefine.
 Import ListNotations.
 Local Open Scope N_scope.
 
@@ -28,24 +27,6 @@ Proof.
     end).
 Qed.
 Print Assumptions C02_rejected_names.
-
-(** ** The code itself (semantic tie)
-
-    [gen_sniproxy_isRejectedDomain] is the Go body of isRejectedDomain
-    (proxy.go) as gen/gotrans.go translates it on every run (Gen/CodeSni.v),
-    suffix list included; it computes the specification on ALL names, for
-    every [net.ParseIP]. *)
-Theorem C02_code_isRejectedDomain_is_model : forall (is_ip : bytes -> bool) (name : bytes),
-  gen_sniproxy_isRejectedDomain is_ip name = is_rejected is_ip deployed_suffixes name.
-Proof. exact gen_isRejectedDomain_is_model. Qed.
-Print Assumptions C02_code_isRejectedDomain_is_model.
-
-Theorem C02_code_rejected_names : forall (is_ip : bytes -> bool) name,
-  (name = [] \/ is_ip name = true \/
-   exists suf p, In suf deployed_suffixes /\ name = p ++ bytes_of_string suf) ->
-  gen_sniproxy_isRejectedDomain is_ip name = true.
-Proof. exact code_rejected_names. Qed.
-Print Assumptions C02_code_rejected_names.
 
 (** A name the lookup refuses, a destination whose endpoint is not
     connected, or a server without lookup: nothing is dialled. *)
